@@ -36,7 +36,7 @@ pub struct C02Case {
 }
 
 pub const FAMILIES: &[(&str, u64)] =
-    &[("tiny", 2), ("tiny-hints", 1), ("medium", 3), ("conf", 6), ("conf-hints", 3), ("deep", 5), ("deep-hints", 2), ("big", 2), ("many-excl", 1)];
+    &[("tiny", 2), ("tiny-hints", 1), ("medium", 3), ("conf", 6), ("conf-hints", 3), ("deep", 5), ("deep-hints", 2), ("big", 2), ("many-excl", 1), ("union-conf", 3), ("union-conf-hints", 4)];
 
 pub const EXISTS_BUDGET: u64 = 300_000;
 
